@@ -7,6 +7,10 @@
 //               writing files, the whole interval; oracle = independent per-event count
 //   eof         the source ends after record k (acquisition aborted / truncated file): histogram of the delivered prefix
 //   cutoff      num_events_to_store
+//   file_safir  the script as a SAFIR coincidence file (block scanner) read by the real CListModeDataSAFIR: file cut inside a record
+//               or inside its header, short reads / EINTR in the middle of records, several passes with rewinds
+//   file_ecat8  the script as a PETLINK 32-bit list of the Siemens mMR with its Interfile list-mode header, other tag words in
+//               between, read by the real CListModeDataECAT8_32bit; same faults
 //   lm_gradient gradient / value / Hessian product of the list-mode objective function (small event cache -> several cache
 //               files; second object re-using the cache files) vs the projection-data objective function of the histogram
 // omp variant: list-mode gradient / value with 2..16 simulated threads vs one thread.
@@ -16,6 +20,11 @@
 #include "recon_common.h"
 #include "stir/listmode/LmToProjData.h"
 #include "stir/TimeFrameDefinitions.h"
+#include "stir/listmode/CListModeDataSAFIR.h"
+#include "stir/listmode/CListModeDataECAT8_32bit.h"
+#include "stir/listmode/CListRecordSAFIR.h"
+#include "stir/ProjDataInfoGenericNoArcCorr.h"
+#include "stir/DetectorCoordinateMap.h"
 #include "stir/ProjDataInMemory.h"
 #include "stir/ProjData.h"
 #include "stir/recon_buildblock/PoissonLogLikelihoodWithLinearModelForMeanAndListModeDataWithProjMatrixByBin.h"
@@ -59,7 +68,9 @@ std::map<BinKey, float>
 expected_histogram(const World& w, const ProjDataInfo& out_pdi, double start, double end, const HistOpts& o)
 {
   std::map<BinKey, float> h;
-  const ProjDataInfoCylindricalNoArcCorr& pdi = dynamic_cast<const ProjDataInfoCylindricalNoArcCorr&>(out_pdi);
+  const ProjDataInfo& pdi = out_pdi;
+  const ProjDataInfoCylindricalNoArcCorr* const cyl = dynamic_cast<const ProjDataInfoCylindricalNoArcCorr*>(&out_pdi);
+  const ProjDataInfoGenericNoArcCorr* const gen = dynamic_cast<const ProjDataInfoGenericNoArcCorr*>(&out_pdi);
   const int delayed_inc = o.store_prompts ? (o.store_delayeds && w.has_delayeds ? -1 : 0) : 1;
   double t = 0;
   long more = o.num_events_to_store;
@@ -75,8 +86,16 @@ expected_histogram(const World& w, const ProjDataInfo& out_pdi, double start, do
       if (o.num_events_to_store <= 0 && !(t >= start && t < end))
         continue;
       DetectionPositionPair<> dp(DetectionPosition<>(rec.d1, rec.r1, 0), DetectionPosition<>(rec.d2, rec.r2, 0), rec.tof);
+      if (w.index_map)
+        {
+          // file formats that store crystal indices: the scanner's own index -> detection position table
+          dp.pos1() = w.index_map->get_det_pos_for_index(dp.pos1());
+          dp.pos2() = w.index_map->get_det_pos_for_index(dp.pos2());
+          if (dp.pos1().tangential_coord() == dp.pos2().tangential_coord())
+            continue;
+        }
       Bin b;
-      if (pdi.get_bin_for_det_pos_pair(b, dp) != Succeeded::yes)
+      if ((cyl ? cyl->get_bin_for_det_pos_pair(b, dp) : gen->get_bin_for_det_pos_pair(b, dp)) != Succeeded::yes)
         continue;
       if (b.segment_num() < pdi.get_min_segment_num() || b.segment_num() > pdi.get_max_segment_num())
         continue;
@@ -151,9 +170,12 @@ struct HistRun
 // one LmToProjData run for one frame into memory; `reuse`: the converter object of an earlier run is used again
 std::map<BinKey, float>
 histogram_in_memory(const World& w, double start, double end, const HistOpts& o, HistRun& hr, shared_ptr<ProjDataInfo>* out_pdi = nullptr,
-                    Lm2P* reuse = nullptr)
+                    Lm2P* reuse = nullptr, shared_ptr<ListModeData> file_src = shared_ptr<ListModeData>())
 {
-  shared_ptr<lm::SimListModeData> src(new lm::SimListModeData(w.scanner_pdi, w.script, w.has_delayeds, o.eof_after));
+  shared_ptr<lm::SimListModeData> sim_src;
+  if (!file_src)
+    sim_src.reset(new lm::SimListModeData(w.scanner_pdi, w.script, w.has_delayeds, o.eof_after));
+  shared_ptr<ListModeData> src = file_src ? file_src : shared_ptr<ListModeData>(sim_src);
   Lm2P fresh_conv;
   Lm2P& conv = reuse ? *reuse : fresh_conv;
   conv.set_input_data(src);
@@ -174,8 +196,11 @@ histogram_in_memory(const World& w, double start, double end, const HistOpts& o,
   shared_ptr<ProjData> out(new ProjDataInMemory(src->get_exam_info_sptr(), conv.get_template_proj_data_info_sptr()));
   conv.set_output_projdata_sptr(out);
   conv.process_data();
-  hr.rewinds = src->n_rewind;
-  hr.eofs = src->n_eof;
+  if (sim_src)
+    {
+      hr.rewinds = sim_src->n_rewind;
+      hr.eofs = sim_src->n_eof;
+    }
   if (out_pdi)
     *out_pdi = conv.get_template_proj_data_info_sptr();
   return to_map(*out);
@@ -386,6 +411,344 @@ run_histogram(const Plan& p, sim::Result& res)
           compare_hist(to_map(*pd), per_frame[f], cls + ":multi_frame_run", "frame of a multi-frame run (file output)");
         }
       sim::probe("multi_frame_run_checked");
+    }
+}
+
+
+// ------------------------------------------------------------------ real list-mode files
+// The script written as a SAFIR coincidence file (32-byte file header, then 8-byte little-endian records; bit layout as
+// documented in CListRecordSAFIR.h) and read back by the real CListModeDataSAFIR / InputStreamWithRecords through libstdc++'s
+// filebuf and the simulated kernel: short reads and EINTR in the middle of records, a file that ends inside a record or
+// inside its header (acquisition killed), several passes with rewinds to saved stream positions.
+shared_ptr<Scanner>
+make_block_scanner(int ndet, int nrings, int ct, int ca)
+{
+  // ndet / ct flat blocks of ct crystals on the sides of the regular polygon around the ring; one bucket per block transaxially,
+  // one bucket axially (what GeometryBlocksOnCylindrical accepts)
+  const float radius = 1.25f * ndet;
+  const float side = 2.f * radius * std::tan(3.14159265f / (ndet / ct)) * 1.0001f;
+  const float pitch = 0.999f * side / ct;
+  return shared_ptr<Scanner>(new Scanner(Scanner::User_defined_scanner, std::string("SimBlocks"), ndet, nrings, ndet / 2 + 1, ndet / 2 + 1, radius,
+                                         /*DOI*/ 3.f, /*ring spacing*/ 4.f, radius * 3.14159265f / ndet, /*tilt*/ 0.f,
+                                         /*axial, transaxial blocks per bucket*/ nrings / ca, 1, /*crystals per block*/ ca, ct,
+                                         /*singles units*/ 1, 1, /*layers*/ 1, 0.15f, 511.f, (short)-1, -1.f, -1.f,
+                                         "BlocksOnCylindrical", /*axial crystal spacing*/ 4.f, /*transaxial*/ pitch,
+                                         /*block spacings*/ 4.f * ca, side));
+}
+
+World
+make_file_world(const Plan& p)
+{
+  Plan q = p;
+  q.cfg["tof"] = 0;      // the format has no TOF field
+  q.cfg["delayeds"] = 0; // and CListModeDataSAFIR declares that it has no delayed events
+  World w = make_world(q, false);
+  const int ndet = (int)p.c("ndet", 12), nrings = (int)p.c("nrings", 2);
+  int ct = (int)p.c("blk_t", 2), ca = (int)p.c("blk_a", 1);
+  while (ct > 1 && (ndet % ct || ndet / ct < 4)) // at least four flat blocks around the ring
+    --ct;
+  while (ca > 1 && nrings % ca)
+    --ca;
+  w.scanner = make_block_scanner(ndet, nrings, std::max(ct, 1), std::max(ca, 1));
+  w.scanner_pdi = vu::make_pdi(w.scanner, 1, nrings - 1, ndet / 2, ndet / 2 + 1, false, 0);
+  const int ntang = (int)std::max<long>(3, std::min<long>(p.c("ntang", ndet / 2 + 1), ndet / 2 + 1));
+  const int max_delta = (int)std::min<long>(p.c("max_delta", nrings - 1), nrings - 1);
+  w.templ = vu::make_pdi(w.scanner, 1, max_delta, ndet / 2, ntang, false, 0);
+  w.has_delayeds = false;
+  w.index_map = w.scanner->get_detector_map_sptr();
+  if (!w.index_map)
+    throw std::runtime_error("harness: block scanner without detector map");
+  return w;
+}
+
+std::vector<unsigned char>
+encode_safir(const std::vector<lm::Rec>& script, bool neurolf)
+{
+  std::vector<unsigned char> bytes(32);
+  for (size_t i = 0; i < 32; ++i)
+    bytes[i] = (unsigned char)("SAFIR CListModeData (verif)     "[i]);
+  for (const lm::Rec& r : script)
+    {
+      uint64_t v;
+      if (r.is_time)
+        v = (uint64_t(1) << 63) | (uint64_t(r.ms) & ((uint64_t(1) << 48) - 1));
+      else
+        v = uint64_t(r.r1 & 0xff) | (uint64_t(r.r2 & 0xff) << 8) | (uint64_t(r.d1 & 0xffff) << 16) | (uint64_t(r.d2 & 0xffff) << 32)
+            | (uint64_t(0) << 48) | (uint64_t(0) << (neurolf ? 51 : 52)) | (uint64_t(r.prompt ? 0 : 1) << 62);
+      for (int b = 0; b < 8; ++b)
+        bytes.push_back((unsigned char)(v >> (8 * b)));
+    }
+  return bytes;
+}
+
+void
+run_file_safir(const Plan& p, sim::Result& res)
+{
+  res.cls = "file_safir";
+  res.nontrivial = true;
+  World w = make_file_world(p);
+  sim::add_sim_seconds(w.t_end);
+  const Op& op = p.ops[0];
+  const bool neurolf = p.c("neurolf", 0) != 0;
+  std::vector<unsigned char> bytes = encode_safir(*w.script, neurolf);
+  const long cut = p.c("truncate_at", -1);
+  if (cut >= 0)
+    {
+      bytes.resize((size_t)(cut % (long)(bytes.size() + 1)));
+      sim::fired("FILE_TRUNCATED");
+      if (bytes.size() < 32)
+        sim::probe("file_ends_inside_its_header");
+      else if ((bytes.size() - 32) % 8)
+        sim::probe("file_ends_inside_a_record");
+    }
+  const std::string name = sim::scratch_dir() + "/coincidences.clm.safir";
+  {
+    FILE* f = fopen(name.c_str(), "wb");
+    if (!f || (bytes.size() && fwrite(bytes.data(), 1, bytes.size(), f) != bytes.size()))
+      throw std::runtime_error("harness: cannot write the list-mode file");
+    fclose(f);
+  }
+  HistOpts o;
+  o.store_prompts = true;
+  o.store_delayeds = p.c("store_delayeds", 1) != 0;
+  o.max_segment = -1;
+  o.eof_after = bytes.size() >= 32 ? (long)((bytes.size() - 32) / 8) : 0; // complete records
+  sim::Rng r(sim::mix(p.seed, 78));
+  const int nseg = w.templ->get_num_segments();
+  // frames: the whole interval and a partition of it at a time mark
+  std::vector<std::pair<double, double>> frames;
+  frames.push_back(std::make_pair(0., w.t_end));
+  if (!w.mark_times.empty())
+    {
+      const double m = w.mark_times[r.below(w.mark_times.size())];
+      if (m > 0.02)
+        {
+          frames.push_back(std::make_pair(0., m));
+          frames.push_back(std::make_pair(m, w.t_end));
+        }
+    }
+  auto open_source = [&]() -> shared_ptr<ListModeData> {
+    if (neurolf)
+      return shared_ptr<ListModeData>(new CListModeDataSAFIR<CListRecordSAFIR<CListEventDataNeuroLF>>(name, w.scanner_pdi));
+    return shared_ptr<ListModeData>(new CListModeDataSAFIR<CListRecordSAFIR<CListEventDataSAFIR>>(name, w.scanner_pdi));
+  };
+  for (size_t f = 0; f < frames.size(); ++f)
+    {
+      std::map<BinKey, float> want = expected_histogram(w, *w.templ, frames[f].first, frames[f].second, o);
+      HistRun all, part;
+      std::map<BinKey, float> h1 = histogram_in_memory(w, frames[f].first, frames[f].second, o, all, nullptr, nullptr, open_source());
+      compare_hist(h1, want, "file_safir:frame", "SAFIR file, all segments in memory, no faults");
+      // second reader: batches (several passes over the file) under read faults
+      part.segs_in_mem = (int)r.range(1, nseg);
+      const long reads_before = sim::io::n_reads();
+      sim::io::arm(f == 0 ? op.faults : std::vector<sim::Fault>());
+      std::map<BinKey, float> h2;
+      try
+        {
+          h2 = histogram_in_memory(w, frames[f].first, frames[f].second, o, part, nullptr, nullptr, open_source());
+        }
+      catch (...)
+        {
+          sim::io::disarm();
+          throw;
+        }
+      sim::io::disarm();
+      compare_hist(h2, want, f == 0 && !op.faults.empty() ? "file_safir:batches_under_read_faults" : "file_safir:batches",
+                   "SAFIR file, segments in batches (several passes with rewinds)");
+      (void)reads_before;
+      sim::logf("file frame %zu [%g,%g) bins %zu", f, frames[f].first, frames[f].second, h1.size());
+      for (auto& kv : h1)
+        sim::log_bytes(&kv.second, 4);
+      if (!h1.empty())
+        sim::probe("file_histogram_nonempty");
+      if (part.segs_in_mem < nseg)
+        sim::probe("file_multi_pass");
+    }
+}
+
+// The script as a Siemens PETLINK 32-bit list (CListModeDataECAT8_32bit: Interfile list-mode header for the mMR + raw words).
+// Event word: bit 31 = 0, bit 30 = 1 for a prompt (0 = delayed), bits 0..29 = offset of the bin in the span-1 sinogram
+// (segments 0,-1,+1,..; axial position; view; tangential position).  Tag word: bit 31 = 1; bits 29..30 = 0 for an elapsed-time
+// tag (milliseconds in bits 0..28), anything else is another kind of tag (dead time, motion, ...) that carries no counts.
+struct Ecat8File
+{
+  std::vector<unsigned char> bytes;
+  std::vector<long> script_records_before_word; // [k] = number of script records encoded in words 0..k-1
+};
+
+Ecat8File
+encode_ecat8(const World& w, const ProjDataInfoCylindricalNoArcCorr& full, sim::Rng& r)
+{
+  Ecat8File f;
+  const int ntang = full.get_num_tangential_poss(), nviews = full.get_num_views();
+  long nrec = 0;
+  auto push = [&](uint32_t v, bool is_script_record) {
+    f.script_records_before_word.push_back(nrec);
+    for (int b = 0; b < 4; ++b)
+      f.bytes.push_back((unsigned char)(v >> (8 * b)));
+    if (is_script_record)
+      ++nrec;
+  };
+  for (const lm::Rec& rec : *w.script)
+    {
+      if (r.chance(0.08)) // a tag word of another kind in between
+        {
+          push((uint32_t(1) << 31) | (uint32_t(r.range(1, 3)) << 29) | (uint32_t)r.below(1u << 29), false);
+          sim::probe("other_tag_words_in_file");
+        }
+      if (rec.is_time)
+        {
+          push((uint32_t(1) << 31) | (uint32_t)(rec.ms & ((1u << 29) - 1)), true);
+          continue;
+        }
+      DetectionPositionPair<> dp(DetectionPosition<>(rec.d1, rec.r1, 0), DetectionPosition<>(rec.d2, rec.r2, 0), 0);
+      Bin b;
+      if (full.get_bin_for_det_pos_pair(b, dp) != Succeeded::yes)
+        throw std::runtime_error("harness: event cannot be encoded");
+      long z = b.axial_pos_num();
+      const int seg = b.segment_num();
+      // sinograms before this segment in the order 0, -1, +1, -2, +2, ...
+      const int nr = full.get_scanner_ptr()->get_num_rings();
+      for (int k = 0; k < std::abs(seg); ++k)
+        z += k == 0 ? nr : 2 * (nr - k);
+      if (seg > 0)
+        z += nr - seg; // segment -seg comes first
+      const long offset = (z * nviews + b.view_num()) * ntang + (b.tangential_pos_num() + ntang / 2);
+      if (offset < 0 || offset >= (1L << 30))
+        throw std::runtime_error("harness: offset out of range");
+      push((uint32_t)offset | (uint32_t(rec.prompt ? 1 : 0) << 30), true);
+    }
+  f.script_records_before_word.push_back(nrec);
+  return f;
+}
+
+std::string
+ecat8_header(const std::string& data_file, int max_ring_diff, int nrings)
+{
+  std::string table = "{" + std::to_string(nrings);
+  for (int d = 1; d <= max_ring_diff; ++d)
+    table += ", " + std::to_string(nrings - d) + ", " + std::to_string(nrings - d);
+  table += "}";
+  return "!INTERFILE:=\n!originating system:=2008\n%SMS-MI header name space:=PETLINK bin address\n%SMS-MI version number:=3.4\n\n"
+         "!GENERAL DATA:=\n!data offset in bytes:=0\nname of data file:="
+         + data_file
+         + "\n\n!GENERAL IMAGE DATA:=\n!type of data:=PET\n%study date (yyyy:mm:dd):=2017:03:27\n%study time (hh:mm:ss GMT+00:00):=17:00:35\n"
+           "isotope name:=F-18\nisotope gamma halflife (sec):=6586.2\nisotope branching factor:=0.97\nradiopharmaceutical:=FDG\n"
+           "relative time of tracer injection (sec):=0\ntracer activity at time of injection (Bq):=4.65e+007\ninjected volume (ml):=0\n"
+           "%tracer injection date (yyyy:mm:dd):=2017:03:27\n%tracer injection time (hh:mm:ss GMT+00:00):=16:07:00\n"
+           "%patient orientation:=HFS\nPET data type:=Emission\ndata format:=CoincidenceList\nhorizontal bed translation:=stepped\n"
+           "start horizontal bed position (mm):=0\nend horizontal bed position (mm):=0\nstart vertical bed position (mm):=0\n"
+           "%bed zero offset (mm):=0\nnumber of energy windows:=1\n%energy window lower level (keV) [1]:=430\n"
+           "%energy window upper level (keV) [1]:=610\n\n!PET STUDY (Emission data):=\nPET scanner type:=cylindrical\n"
+           "transaxial FOV diameter (cm):=59.6\nnumber of rings:=64\ndistance between rings (cm):=0.40625\ngantry tilt angle (degrees):=0\n"
+           "gantry crystal radius (cm):=32.8\nbin size (cm):=0.20445\nsepta state:=none\n%number of TOF time bins:=1\n%TOF mashing factor:=1\n\n"
+           "!IMAGE DATA DESCRIPTION:=\n%preset type:=time\n%preset value:=900\n%preset unit:=seconds\nimage duration (sec):=900\n"
+           "%total listmode word counts:=1000\n\n%COINCIDENCE LIST DATA:=\n%LM event and tag words format (bits):=32\n"
+           "%timing tagwords interval (msec):=1\n%singles polling method:=instantaneous\n%singles polling interval (sec):=2\n"
+           "%singles scale factor:=8\n%total number of singles blocks:=224\n%axial compression:=1\n%maximum ring difference:="
+         + std::to_string(max_ring_diff) + "\n%number of projections:=344\n%number of views:=252\n%number of segments:="
+         + std::to_string(2 * max_ring_diff + 1) + "\n%segment table:=" + table + "\n%time_sync:=25934299\n";
+}
+
+void
+run_file_ecat8(const Plan& p, sim::Result& res)
+{
+  res.cls = "file_ecat8";
+  res.nontrivial = true;
+  Plan q = p;
+  q.cfg["tof"] = 0;
+  q.cfg["ndet"] = 8;
+  q.cfg["nrings"] = 1;
+  World w = make_world(q, false); // only for the sequence of time marks and events; the events get mMR detectors below
+  sim::add_sim_seconds(w.t_end);
+  w.scanner.reset(new Scanner(Scanner::Siemens_mMR));
+  const int ndet = w.scanner->get_num_detectors_per_ring(), nrings = w.scanner->get_num_rings();
+  const int lm_delta = (int)p.c("lm_max_delta", 1);
+  shared_ptr<ProjDataInfo> full = vu::make_pdi(w.scanner, 1, nrings - 1, ndet / 2, w.scanner->get_max_num_non_arccorrected_bins(), false, 0);
+  w.scanner_pdi = vu::make_pdi(w.scanner, 1, lm_delta, ndet / 2, w.scanner->get_max_num_non_arccorrected_bins(), false, 0);
+  // the template: a few tangential positions, mashed views, ring differences up to 0 or 1
+  static const int view_choices[] = { 252, 126, 84, 42 };
+  const int views = view_choices[p.c("ecat_views_pick", 1) % 4];
+  const int ntang = (int)(2 * p.c("ecat_half_tang", 6) + 1);
+  const int t_delta = (int)std::min<long>(p.c("max_delta", 1), 1);
+  w.templ = vu::make_pdi(w.scanner, 1, t_delta, views, ntang, false, 0);
+  sim::Rng r(sim::mix(p.seed, 79));
+  {
+    std::vector<lm::Rec> ev = *w.script;
+    for (lm::Rec& e : ev)
+      if (!e.is_time)
+        {
+          e.d1 = (int)r.below((uint64_t)ndet);
+          e.d2 = (int)((e.d1 + ndet / 2 + r.range(-ntang, ntang) + ndet) % ndet); // about half inside the template's tangential range
+          e.r1 = (int)r.below((uint64_t)nrings);
+          e.r2 = (int)std::max<long>(0, std::min<long>(nrings - 1, e.r1 + r.range(-lm_delta, lm_delta)));
+          e.tof = 0;
+        }
+    w.script.reset(new std::vector<lm::Rec>(ev));
+  }
+  const Op& op = p.ops[0];
+  Ecat8File file = encode_ecat8(w, dynamic_cast<const ProjDataInfoCylindricalNoArcCorr&>(*full), r);
+  const long cut = p.c("truncate_at", -1);
+  if (cut >= 0)
+    {
+      file.bytes.resize((size_t)(cut % (long)(file.bytes.size() + 1)));
+      sim::fired("FILE_TRUNCATED");
+      if (file.bytes.size() % 4)
+        sim::probe("file_ends_inside_a_record");
+    }
+  const std::string dir = sim::scratch_dir();
+  {
+    FILE* f = fopen((dir + "/acq.l").c_str(), "wb");
+    if (!f || (file.bytes.size() && fwrite(file.bytes.data(), 1, file.bytes.size(), f) != file.bytes.size()))
+      throw std::runtime_error("harness: cannot write the list-mode file");
+    fclose(f);
+    const std::string hdr = ecat8_header("acq.l", lm_delta, nrings);
+    f = fopen((dir + "/acq.l.hdr").c_str(), "wb");
+    if (!f || fwrite(hdr.data(), 1, hdr.size(), f) != hdr.size())
+      throw std::runtime_error("harness: cannot write the list-mode header");
+    fclose(f);
+  }
+  HistOpts o;
+  o.store_prompts = p.c("store_prompts", 1) != 0;
+  o.store_delayeds = p.c("store_delayeds", 1) != 0 || !o.store_prompts;
+  o.max_segment = -1;
+  o.eof_after = file.script_records_before_word[file.bytes.size() / 4];
+  const int nseg = w.templ->get_num_segments();
+  std::vector<std::pair<double, double>> frames;
+  frames.push_back(std::make_pair(0., w.t_end));
+  if (!w.mark_times.empty() && r.chance(0.5))
+    {
+      const double m = w.mark_times[r.below(w.mark_times.size())];
+      if (m > 0.02)
+        frames.push_back(r.chance(0.5) ? std::make_pair(0., m) : std::make_pair(m, w.t_end));
+    }
+  auto open_source = [&]() { return shared_ptr<ListModeData>(new ecat::CListModeDataECAT8_32bit(dir + "/acq.l.hdr")); };
+  for (size_t f = 0; f < frames.size(); ++f)
+    {
+      std::map<BinKey, float> want = expected_histogram(w, *w.templ, frames[f].first, frames[f].second, o);
+      HistRun part;
+      part.segs_in_mem = r.chance(0.5) ? -1 : (int)r.range(1, nseg);
+      sim::io::arm(f == 0 ? op.faults : std::vector<sim::Fault>());
+      std::map<BinKey, float> h;
+      try
+        {
+          h = histogram_in_memory(w, frames[f].first, frames[f].second, o, part, nullptr, nullptr, open_source());
+        }
+      catch (...)
+        {
+          sim::io::disarm();
+          throw;
+        }
+      sim::io::disarm();
+      compare_hist(h, want, f == 0 && !op.faults.empty() ? "file_ecat8:under_read_faults" : "file_ecat8:frame",
+                   "PETLINK 32-bit file of the mMR");
+      sim::logf("file frame %zu [%g,%g) bins %zu", f, frames[f].first, frames[f].second, h.size());
+      for (auto& kv : h)
+        sim::log_bytes(&kv.second, 4);
+      if (!h.empty())
+        sim::probe("file_histogram_nonempty");
+      if (part.segs_in_mem > 0 && part.segs_in_mem < nseg)
+        sim::probe("file_multi_pass");
     }
 }
 
@@ -748,6 +1111,10 @@ run(const Plan& p, sim::Result& res)
 #else
   if (!p.ops.empty() && (p.ops[0].kind == "lm_gradient" || p.ops[0].kind == "lm_cache_write_error"))
     run_lm_gradient(p, res);
+  else if (!p.ops.empty() && p.ops[0].kind == "file_safir")
+    run_file_safir(p, res);
+  else if (!p.ops.empty() && p.ops[0].kind == "file_ecat8")
+    run_file_ecat8(p, res);
   else
     run_histogram(p, res);
 #endif
@@ -793,8 +1160,11 @@ gen(uint64_t seed, const std::string& tier, long idx)
     p.cfg["pct_d"] = r.range(2, 4);
   (void)idx;
 #else
-  static const char* cls[] = { "histogram", "histogram", "eof", "cutoff", "lm_gradient", "lm_gradient", "lm_cache_write_error", "reuse" };
-  o.kind = cls[idx % 8];
+  static const char* cls[] = { "histogram", "histogram", "eof", "cutoff", "lm_gradient", "lm_gradient", "lm_cache_write_error", "reuse",
+                               "file_safir", "file_ecat8" };
+  o.kind = cls[idx % 10];
+  if (o.kind == std::string("file_ecat8") && (idx / 10) % 2)
+    o.kind = "file_safir"; // the mMR runs are the slow ones (full-size detector tables): one run in twenty
   for (int j = 0; j < 3; ++j)
     o.a.push_back((long)r.below(1000));
   p.cfg["span"] = r.chance(0.3) ? 3 : 1;
@@ -822,6 +1192,28 @@ gen(uint64_t seed, const std::string& tier, long idx)
   if (o.kind == std::string("lm_cache_write_error"))
     p.cfg["cache_size"] = r.range(3, 80);
   p.cfg["lm_resetup"] = r.chance(0.4);
+  // list-mode files
+  p.cfg["blk_t"] = r.range(1, 4);
+  p.cfg["blk_a"] = r.range(1, 3);
+  p.cfg["neurolf"] = r.chance(0.4);
+  p.cfg["truncate_at"] = r.chance(0.5) ? -1 : (long)r.below(1 << 20);
+  p.cfg["lm_max_delta"] = r.range(0, 2);
+  p.cfg["ecat_views_pick"] = r.range(0, 3);
+  p.cfg["ecat_half_tang"] = r.range(2, 20);
+  if (o.kind == std::string("file_ecat8"))
+    p.cfg["nrec"] = r.range(20, 200);
+  if (o.kind == std::string("file_safir") || o.kind == std::string("file_ecat8"))
+    {
+      const int nf = (int)r.below(4);
+      for (int i = 0; i < nf; ++i)
+        {
+          sim::Fault f;
+          f.kind = r.chance(0.6) ? "R_SHORT" : "R_EINTR";
+          f.at = (long)r.below(r.chance(0.7) ? 3 : 12);
+          f.a = (long)r.range(1, 40); // a short read ends inside a record when this is no multiple of 8
+          o.faults.push_back(f);
+        }
+    }
 #endif
   p.ops.push_back(o);
   return p;
